@@ -66,23 +66,31 @@ type Extractor struct {
 
 // clone creates a shallow copy of the Extractor with a deep copy of options.
 // This ensures immutability - each chain method returns a new instance.
+//
+// A reader that e opened itself from its file is not handed to the copy: e
+// closes it in its terminal operations and in Close, so sharing it would let
+// either extractor close the file under the other. The copy opens its own
+// reader on demand instead. Readers supplied by the caller (FromReader) and
+// readers without a file to re-open (FromHTMLReader) are still shared.
 func (e *Extractor) clone() *Extractor {
 	newExt := &Extractor{
-		filename:     e.filename,
-		format:       e.format,
-		reader:       e.reader,
-		docxReader:   e.docxReader,
-		odtReader:    e.odtReader,
-		xlsxReader:   e.xlsxReader,
-		pptxReader:   e.pptxReader,
-		htmlReader:   e.htmlReader,
-		epubReader:   e.epubReader,
-		ownsReader:   e.ownsReader,
-		readerOpened: e.readerOpened,
-		options:      e.options.clone(),
-		err:          e.err,
-		warnings:     append([]Warning(nil), e.warnings...),
-		ocrClient:    e.ocrClient,
+		filename:  e.filename,
+		format:    e.format,
+		options:   e.options.clone(),
+		err:       e.err,
+		warnings:  append([]Warning(nil), e.warnings...),
+		ocrClient: e.ocrClient,
+	}
+	if e.readerOpened && !(e.ownsReader && e.filename != "") {
+		newExt.reader = e.reader
+		newExt.docxReader = e.docxReader
+		newExt.odtReader = e.odtReader
+		newExt.xlsxReader = e.xlsxReader
+		newExt.pptxReader = e.pptxReader
+		newExt.htmlReader = e.htmlReader
+		newExt.epubReader = e.epubReader
+		newExt.ownsReader = e.ownsReader
+		newExt.readerOpened = true
 	}
 	return newExt
 }
